@@ -40,6 +40,14 @@ func init() {
 }
 
 func (p propC05) Gen(r *simrt.Rand, idx int, tier string) any {
+	if idx%8 == 5 || idx%8 == 7 {
+		// a concurrent history (C06's programs), then quiescence, Close, Open: what is read after
+		// the reopen must be what was read before (the persisted order of concurrent writes must
+		// be the order readers saw)
+		c := genC06(r, idx, tier)
+		c.Prop, c.Reopen = "C05", true
+		return C05Case{Conc: &c}
+	}
 	if idx%2 == 0 {
 		c := genSeqCase(r, seqProfile{prop: "C05", steps: [2]int{15, 50}, keys: [2]int{2, 4}, maxTx: 4, txWeight: 50, ctlWeight: 8, reopen: 10, readback: "all"})
 		if idx%8 == 2 {
@@ -144,6 +152,7 @@ func (p propC05) Gen(r *simrt.Rand, idx int, tier string) any {
 type C05Case struct {
 	Single *SeqCase   `json:"single,omitempty"`
 	Multi  *MultiCase `json:"multi,omitempty"`
+	Conc   *ConcCase  `json:"conc,omitempty"`
 }
 
 func (p propC05) Decode(b json.RawMessage) (any, error) {
@@ -154,6 +163,11 @@ func (p propC05) Decode(b json.RawMessage) (any, error) {
 
 func (p propC05) Exec(x any, choices []int32) RunOut {
 	c := x.(C05Case)
+	if c.Conc != nil {
+		out, cr := concExec(*c.Conc, choices)
+		out.NonTrivial = cr.overlaps() > 0
+		return out
+	}
 	if c.Single != nil {
 		if c.Single.Dir == "segments" {
 			return segmentedExec(*c.Single)
@@ -166,6 +180,13 @@ func (p propC05) Exec(x any, choices []int32) RunOut {
 func (p propC05) Shrink(x any) []any {
 	c := x.(C05Case)
 	var out []any
+	if c.Conc != nil {
+		for _, d := range concShrink(*c.Conc) {
+			d := d
+			out = append(out, C05Case{Conc: &d})
+		}
+		return out
+	}
 	if c.Single != nil {
 		for _, s := range p.seqProp.Shrink(*c.Single) {
 			sc := s.(SeqCase)
